@@ -339,7 +339,8 @@ def run_marg(ctx, scenarios, name, prop):
     for k in range(shards):
         out = ctx.path("marg-%s-%d.ndjson" % (name, k))
         files.append(out)
-        procs.append(ctx.spawn([drv, "marg", "-seed", str(ctx.seed), "-scen", sf, "-out", out, "-shard", str(k), "-shards", str(shards)]))
+        procs.append(ctx.spawn([drv, "marg", "-seed", str(ctx.seed), "-scen", sf, "-out", out, "-shard", str(k), "-shards", str(shards),
+                                "-n", str(20000 if ctx.tier == "quick" else 400000)]))
     for p in procs:
         rc_, o_, e = ctx.wait(p)
         if p.returncode != 0:
@@ -347,7 +348,7 @@ def run_marg(ctx, scenarios, name, prop):
     files = [f for f in files if os.path.getsize(f) > 0]
     verdicts = ctx.validate_many("MargTrace", files)
     n = sum(v["extra"]["marg"] for v in verdicts)
-    ctx.cover["sampled_marginals"] = dict(recipes=n, samples_each=20000, rule="Chernoff bound, t = 80: a false report has probability below 1e-30")
+    ctx.cover["sampled_marginals"] = dict(recipes=n, samples_each=20000 if ctx.tier == "quick" else 400000, resolution="a bin of probability 1/8 must be off by more than 31 % (quick) / 7 % (thorough) of its expectation to be reported", rule="Chernoff bound, t = 80: a false report has probability below 1e-30")
     ctx.absorb(verdicts, files, lambda l, f, why: dict(kind="marginals", why=why, event={k: v for k, v in vlib.nth_line(f, l).items() if k not in ("pair", "hist")},
                                                       scenario=[s for s in scenarios if s["tag"] == vlib.nth_line(f, l).get("tag")][:1]))
     return n
